@@ -288,7 +288,7 @@ fn bid128_from_string_clear_status(str: &str, rnd_mode: RoundingMode, pfpsf: &mu
         return res;
     }
     // if +sNaN, +SNaN, -sNaN, or -SNaN
-    if range.get(0..4).is_some_and(|prefix| prefix.eq_ignore_ascii_case("snan")) {
+    if (c == Some('+') || c == Some('-')) && range.get(0..4).is_some_and(|prefix| prefix.eq_ignore_ascii_case("snan")) {
         res.w[0] = 0;
         res.w[1] = if c == Some('-') {
             0xfe00000000000000u64
